@@ -88,4 +88,29 @@ def step (s : St) : Step → Option St
 
 def run (steps : List Step) : Option St := steps.foldlM step init
 
+/-! ### decision logic of the API calls (txn.go), stated outright -/
+
+inductive Err where
+  | ok | readOnly | discarded | emptyKey | keyTooLarge | valueTooLarge | conflict | closed
+deriving DecidableEq, Repr
+
+/-- `Txn.modify` (Set / Delete): the documented error, checked in this order -/
+def apiSet (maxKey maxVal : Nat) (t : Oracle2.Txn) (k v : List UInt8) : Err :=
+  if !t.update then .readOnly
+  else if t.finished then .discarded
+  else if k.isEmpty then .emptyKey
+  else if k.length > maxKey then .keyTooLarge
+  else if v.length > maxVal then .valueTooLarge
+  else .ok
+
+/-- `Txn.Commit` up to the conflict check: what is answered without touching the store -/
+def apiCommitPre (dbClosed : Bool) (t : Oracle2.Txn) : Option Err :=
+  if t.finished then some .discarded
+  else if t.writes.isEmpty then some .ok          -- nothing to write: Discard, nil
+  else if dbClosed then some .closed
+  else none                                       -- goes on to newCommitTs
+
+/-- `DB.View` / `DB.Update` -/
+def apiViewUpdate (dbClosed : Bool) : Option Err := if dbClosed then some .closed else none
+
 end Sys
